@@ -241,6 +241,14 @@ func TestVerifReplayConverge(t *testing.T) {
 		"an entry with a mandatory leaf dropped by a new revision, a sibling entry stays": {{name: "A", prio: 10, json: `{"doublekey":[{"key1":"k1","key2":"k2","mandato":"m"},{"key1":"k3","key2":"k4","mandato":"n"}]}`}, {name: "A", prio: 10, json: `{"doublekey":[{"key1":"k1","key2":"k2","mandato":"m"}]}`}},
 		"deleted intent cancelled":                                                        {{name: "A", prio: 10, json: ifTwo}, {name: "A", prio: 10, json: "", cancel: true}},
 	}
+	// several intents in one transaction: what the intended store holds of any of them is a former version. The order in
+	// which the intents of a transaction are processed is a map order, hence the repetitions.
+	for run := 1; run <= 6; run++ {
+		histories[fmt.Sprintf("mandatory list leaf dropped by one of two intents of a transaction (run %d)", run)] = []vrcStep{{name: "A", prio: 10, json: dkV1},
+			{name: "A", prio: 10, json: dkNoMand, invalid: true, with: []vrcStep{{name: "B", prio: 20, json: pattern}}}}
+		histories[fmt.Sprintf("ruling intent deleted and a weaker intent sets the other case in the same transaction (run %d)", run)] = []vrcStep{{name: "O1", prio: 5, json: case1},
+			{name: "O1", prio: 5, json: "", with: []vrcStep{{name: "O2", prio: 10, json: case2}}}}
+	}
 	// list subinterface { max-elements 4095 }: 4100 entries
 	{
 		var sb strings.Builder
